@@ -30,13 +30,15 @@ pub enum PathKind {
     ViaSymlinkedDir(Vec<u8>),
     /// the path is one of two hard links to a regular file with this content
     HardLink(Vec<u8>),
+    /// a regular file with this content whose time stamps are: 1 = 40 minutes old, 2 = from 2001, 3 = one hour ahead
+    Stamped(Vec<u8>, u8),
 }
 
 impl PathKind {
     /// content of the regular file the path leads to, if it leads to one
     pub fn content(&self) -> Option<&Vec<u8>> {
         match self {
-            PathKind::File(b) | PathKind::SymlinkTo(b) | PathKind::ViaSymlinkedDir(b) | PathKind::HardLink(b) => Some(b),
+            PathKind::File(b) | PathKind::SymlinkTo(b) | PathKind::ViaSymlinkedDir(b) | PathKind::HardLink(b) | PathKind::Stamped(b, _) => Some(b),
             _ => None,
         }
     }
@@ -97,7 +99,7 @@ pub fn reference(kind: &PathKind) -> Expect {
     match kind {
         PathKind::Missing | PathKind::MissingParents | PathKind::DanglingSymlink => Expect::Syscall(libc::ENOENT),
         PathKind::Directory => Expect::Syscall(libc::EISDIR),
-        PathKind::File(b) | PathKind::SymlinkTo(b) | PathKind::ViaSymlinkedDir(b) | PathKind::HardLink(b) => {
+        PathKind::File(b) | PathKind::SymlinkTo(b) | PathKind::ViaSymlinkedDir(b) | PathKind::HardLink(b) | PathKind::Stamped(b, _) => {
             if b.len() < 16 {
                 return Expect::NotInitialized;
             }
@@ -138,6 +140,12 @@ pub fn materialise(case: &FileCase, dir: &Path) -> PathBuf {
         PathKind::Directory => {
             let p = dir.join("shm");
             std::fs::create_dir_all(&p).expect("mkdir");
+            p
+        }
+        PathKind::Stamped(b, mode) => {
+            let p = dir.join("shm");
+            std::fs::write(&p, b).expect("write case file");
+            crate::seqmc::engine::stamp_file(&p, *mode);
             p
         }
         PathKind::SymlinkTo(b) => {
@@ -284,7 +292,10 @@ pub fn cases(tier: Tier) -> Vec<FileCase> {
     for (what, b) in [("a valid segment", full.clone()), ("an empty file", vec![]), ("a valid header on a 40-byte file", { let mut b = full.clone(); b.truncate(40); b }), ("72 bytes of 0xAA", vec![0xAA; SEG])] {
         v.push(FileCase { label: format!("a symbolic link to {what}"), kind: PathKind::SymlinkTo(b.clone()) });
         v.push(FileCase { label: format!("{what} in a directory reached through a symbolic link"), kind: PathKind::ViaSymlinkedDir(b.clone()) });
-        v.push(FileCase { label: format!("one of two hard links to {what}"), kind: PathKind::HardLink(b) });
+        v.push(FileCase { label: format!("one of two hard links to {what}"), kind: PathKind::HardLink(b.clone()) });
+        for (m, how) in [(1u8, "last modified 40 minutes ago"), (2, "time stamps from January 2001 (before this boot)"), (3, "time stamps one hour in the future")] {
+            v.push(FileCase { label: format!("{what}, {how}"), kind: PathKind::Stamped(b.clone(), m) });
+        }
     }
     v
 }
